@@ -271,9 +271,11 @@ def eval_agg(agg, env, db, rule_outer):
         if v not in env:
             raise Ungrounded(v)
     env0 = {v: env[v] for v in outer}
-    inner_outer = set(vars_of(Atom("_", [agg.target] if agg.target is not None else []), True))
+    # the scope a NESTED aggregate injects from: variables occurring in this aggregate's body outside nested aggregates
+    inner_outer = set(vars_of(Atom("_", [agg.target] if agg.target is not None else []), False))
     for l in agg.body:
-        inner_outer.update(vars_of(l, True))
+        inner_outer.update(vars_of(l, False))
+    inner_outer.update(env0)
     vals = []
     n = 0
     for e in solve(list(agg.body), env0, db, inner_outer):
@@ -284,6 +286,11 @@ def eval_agg(agg, env, db, rule_outer):
                 raise Undefined("multi-valued aggregate target")
             vals.append(tv[0])
     op = agg.op
+    if any(v is ZeroOfUnknownType for v in vals):
+        # a nested sum over an empty set: a zero of the (here unknown) target type
+        typed = [v for v in vals if v is not ZeroOfUnknownType]
+        z = zero_like(typed[0]) if typed else 0
+        vals = [z if v is ZeroOfUnknownType else v for v in vals]
     if op == "count":
         yield n
         return
